@@ -88,4 +88,22 @@ MUTANTS = [
     M("c04-unpack-memoised", "C04", "break", [("optimum/quanto/library/python/unpack.py", "@torch.library.impl(\"quanto_py::unpack\", \"default\")", "_CACHE = {}\n\n\n@torch.library.impl(\"quanto_py::unpack\", \"default\")"),
                                               ("optimum/quanto/library/python/unpack.py", "    return torch.cat(unpacked).to(torch.uint8)", "    return _CACHE.setdefault((tuple(packed.shape), bits), torch.cat(unpacked).to(torch.uint8))")], "C04.R7"),
     M("c04-pack-writes-into-source", "C04", "break", [("optimum/quanto/tensor/qbits/packed.py", "    unpacked = intweights.to(torch.uint8)\n", "    unpacked = intweights.to(torch.uint8)\n    intweights[row_dim:] |= 0\n")], "C04.R7"),
+    # ---------------- rules of the fifth round: requantize (F40), frozen predicate, gradient mode, hook keywords, AWQ flatten, scale bound
+    M("c10-requantize-activations-none-again", "C10", "break", [("optimum/quanto/quantize.py", "    activations = qint8\n", "    activations = None\n")], "C10.R7"),
+    M("c10-requantize-all-modules-again", "C10", "break", [("optimum/quanto/quantize.py", "    quantize(model, modules=modules, activations=activations)", "    quantize(model, activations=activations)")], "C10.R7"),
+    M("c10-refactor-requantize-modules-names", "C10", "refactor", [("optimum/quanto/quantize.py", "    modules = [m for name, m in model.named_modules() if f\"{name}.weight_qtype\" in state_dict]", "    modules = [submodule for n, submodule in model.named_modules() if (n + \".weight_qtype\") in state_dict]")]),
+    M("c10-frozen-flag", "C10", "break", [(QMOD, "        return isinstance(self.weight, QTensor)\n", "        return getattr(self, \"_frozen\", False)\n")], "C10.R2"),
+    M("c10-refactor-frozen-type-test", "C10", "refactor", [(QMOD, "        return isinstance(self.weight, QTensor)\n", "        return isinstance(self.weight, (QTensor,))\n")]),
+    M("c11-hook-under-no-grad", "C11", "break", [(CAL, "    def calibrate_output(\n", "    @torch.no_grad()\n    def calibrate_output(\n")], "C11.R6"),
+    M("c11-hook-output-detached", "C11", "break", [(CAL, "            output = module.forward(input[0])\n", "            output = module.forward(input[0]).detach()\n")], "C11.R6"),
+    M("c11-from-module-requires-grad", "C11", "break", [(QMOD, "        return qmodule.to(module.weight.device)", "        qmodule.requires_grad_(module.weight.requires_grad)\n        return qmodule.to(module.weight.device)")], "C11.R9"),
+    M("c13-hook-with-kwargs", "C13", "break", [(CAL, "register_module_forward_hook(self.calibrate_output),", "register_module_forward_hook(self.calibrate_output, with_kwargs=True),")], "C13.R1"),
+    M("c15-awqbits-inherits-reader", "C15", "break", [("optimum/quanto/tensor/qbits/awq/qbits.py", "    @staticmethod\n    def __tensor_unflatten__(", "    @staticmethod\n    def _unused_tensor_unflatten(")], "C15.R13"),
+    M("c15-packing-written-as-str-again", "C15", "break", [("optimum/quanto/tensor/qbits/awq/packed.py", "            \"packing\": self._packing.name,", "            \"packing\": str(self._packing),")], "C15.R13"),
+    M("c06-packing-written-as-str-again", "C06", "break", [("optimum/quanto/tensor/qbits/awq/packed.py", "            \"packing\": self._packing.name,", "            \"packing\": str(self._packing),")], "C06.R5"),
+    M("c15-refactor-packing-by-value", "C15", "refactor", [("optimum/quanto/tensor/qbits/awq/packed.py", "            \"packing\": self._packing.name,", "            \"packing\": str(self._packing.value),"),
+                                                           ("optimum/quanto/tensor/qbits/awq/packed.py", "        packing = AWQPacking[meta[\"packing\"]]", "        packing = AWQPacking(ast.literal_eval(meta[\"packing\"]))")]),
+    M("c16-refactor-scale-bounded", "C16", "refactor", [("optimum/quanto/tensor/optimizers/absmax_optimizer.py", "        return rmax / qmax", "        return torch.clamp(rmax / qmax, max=torch.finfo(base.dtype).max / qmax)")]),
+    M("c09-maxopt-single-dim", "C09", "break", [("optimum/quanto/tensor/optimizers/max_optimizer.py", "        dim = list(range(1, base.ndim)) if (axis == 0) else list(range(0, base.ndim - 1))", "        dim = -1 if (axis == 0) else 0")], "C09.R7"),
+    M("c14-activation-scale-numel", "C14", "break", [("optimum/quanto/tensor/quantizers/symmetric.py", "scale.ndim > 0", "scale.numel() != 1")], "C14.R5"),
 ]
